@@ -249,6 +249,14 @@ class C16(Prop):
             rescued = b[0]['status'] == 1
         if not fired or rescued:
             bump(c, 'run.unfired' if not fired else 'run.rescued')
+            fragile0 = (scn['options'].get('demand_model') == 'PDD' or any(l['type'] in ('pump', 'valve') or l.get('cv') for l in scn['links'])
+                        or fr['backup'] in ('fsolve', 'krylov'))
+            if (fired and fragile0 and ce and isinstance(out.exc, RuntimeError)
+                    and ('did not converge' in str(out.exc) or 'Exceeded maximum number of trials' in str(out.exc))):
+                # rescued at the faulted step, then a later step of the run's own (other) trajectory could not be solved and, with
+                # convergence_error=True, run_sim said so the documented way
+                bump(c, 'rescued.failed_later_on_fragile_world')
+                return viol
             if out.exc is not None:
                 return [V('rescued.raised', '%s.%s@%s' % (label, type(out.exc).__name__, out.exc_site), out.exc_tb[-500:])]
             full = list(ref.results.node['head'].index)
